@@ -479,6 +479,63 @@ def client_daemon_consistency_case():
     return None
 
 
+def daemon_rule_text_case():
+    """the rule text the client writes, parsed by the daemon (Bus.dbus_AddMatch), selects exactly the signals the
+    constraints describe - including argument indices of two digits (the specification allows arg0 .. arg63)"""
+    from twisted.internet import defer
+    from txdbus import bus, client, router
+    wide = ['a%d' % i for i in range(14)]
+    rules = [r for r in RULES if r] + [
+        {'args': [(10, 'a10')]}, {'args': [(13, 'a13'), (1, 'a1')]}, {'args': [(10, 'zz')]}, {'arg_paths': [(12, '/w/')]},
+        {'arg_paths': [(11, '/w/x')], 'args': [(0, 'a0')]}, {'mtype': 'signal', 'member': 'Sig', 'args': [(63, 'far')]}]
+    msgs = MSGS + [
+        {'type': 4, 'interface': 'org.a.I', 'member': 'Sig', 'path': '/a/b', 'body': list(wide)},
+        {'type': 4, 'interface': 'org.a.I', 'member': 'Sig', 'path': '/a/b', 'body': wide[:10] + ['other'] + wide[11:]},
+        {'type': 4, 'interface': 'org.a.I', 'member': 'Sig', 'path': '/a/b', 'body': wide[:11] + ['/w/x', '/w/x/y', 'a13']},
+        {'type': 4, 'interface': 'org.a.I', 'member': 'Sig', 'path': '/a/b', 'body': wide[:11] + ['/w', '/q/', 'a13']},
+        {'type': 4, 'interface': 'org.a.I', 'member': 'Sig', 'path': '/a/b', 'body': ['a0', 'a1']},
+        {'type': 4, 'interface': 'org.a.I', 'member': 'Sig', 'path': '/a/b', 'body': ['x'] * 63 + ['far']},
+        {'type': 4, 'interface': 'org.a.I', 'member': 'Sig', 'path': '/a/b', 'body': ['x'] * 6 + ['far']}]
+    for rule in rules:
+        c = client.DBusClientConnection()
+        c.router = router.MessageRouter()
+        c.match_rules = {}
+        sent = []
+
+        def callRemote(path, member, **kw):
+            sent.append(kw.get('body'))
+            return defer.succeed(None)
+        c.callRemote = callRemote
+        kw = {k: v for k, v in rule.items() if k not in ('args', 'arg_paths')}
+        if 'args' in rule:
+            kw['arg'] = rule['args']
+        if 'arg_paths' in rule:
+            kw['arg_path'] = rule['arg_paths']
+        c.addMatch(lambda m: None, **kw)
+        text = sent[0][0]
+        b = bus.Bus()
+        got = []
+
+        class Peer:
+            matchRules = set()
+            uniqueName = ':1.7'
+
+            def sendMessage(self, m):
+                got.append(m)
+        b.clients[':1.7'] = Peer()
+        try:
+            b.dbus_AddMatch(text, dbusCaller=':1.7')
+        except Exception as e:
+            return 'the daemon failed on the rule text %r written by the client: %s: %s' % (text, type(e).__name__, e)
+        for md in msgs:
+            del got[:]
+            b.router.routeMessage(FakeMsg(md))
+            want = 1 if ref_matches(rule, md) else 0
+            if len(got) != want:
+                return 'constraints %r, sent to the daemon as %r: the daemon delivered %r %d times, expected %d' % (rule, text, md, len(got), want)
+    return None
+
+
 def proxy_signature_case():
     from txdbus import objects, interface
     from twisted.internet import defer
@@ -530,7 +587,7 @@ def bounded(tier, seed):
         f = interleaved_history_case(rnd)
         if f:
             return n, f, {'case': 'interleaved add/remove history'}
-    for case in (client_text_case, client_daemon_consistency_case, proxy_signature_case):
+    for case in (client_text_case, client_daemon_consistency_case, daemon_rule_text_case, proxy_signature_case):
         n += 1
         f = case()
         if f:
@@ -546,7 +603,7 @@ def replay(function, clause, model):
 def run_bounded(tier, seed):
     n, f, inp = bounded(tier, seed)
     return {'tool': 'enumeration of rules x signals x add/remove histories (real MessageRouter / client.addMatch / RemoteDBusObject.notifyOnSignal) against a reference matcher',
-            'bound': '16 rules x 11 messages singly, all rule pairs with raising / removed variants, %d random rule sets of up to 4 merged rules; client rule text and proxy signature filter cases' % (3000 if tier == 'thorough' else 40),
+            'bound': '16 rules x 11 messages singly, all rule pairs with raising / removed variants, %d random rule sets of up to 4 merged rules; client rule text, the daemon\'s parsing of that text (indices up to 63) and proxy signature filter cases' % (3000 if tier == 'thorough' else 40),
             'evaluations': n, 'failures': [] if not f else [{'function': 'txdbus.router', 'clause': 'delivery', 'input': inp, 'detail': f}]}
 
 
